@@ -1,4 +1,5 @@
 """C04 - every change reaches the database; abort restores."""
+from ..harness import safe_repr as _srepr  # noqa: E402
 from .. import families, gen, harness, hist, minidb, walker
 from ..harness import brief, eq
 from ..runner import rng_for
@@ -193,7 +194,7 @@ def run_single_changes(fam, kind, impl, rng, rec):
                             sizes=sizes, shape=shape, op=op,
                             args=brief(args, 120), boundary=boundary,
                             base=brief(base, 200))
-                rec.journal(repr(desc))
+                rec.journal(_srepr(desc))
                 try:
                     if op == 'SAME-OBJECT':
                         # v = t[k]; (mutate v); t[k] = v
